@@ -221,6 +221,20 @@ def run(rep):
             ok, how, _ = xlayer.error_discipline(s)
             rep.check(ok, "R07.d", "gis/grid.py", s.func.name, f"{s.shim.name}: kernel error code raises", how, line=s.call.lineno)
             pargs = pq.call_arguments(s.func, s.call, list(s.shim.params))
+            # the data handed to the kernel are the caller's (conversions only): no snapping, clipping or arithmetic on the way
+            INPUTS = {"coord2cell": ("xycoords",), "cell2coord": ("idxcell",), "cell2rowcol": ("idxcell",)}
+            for dn_ in [x for x in INPUTS.get(s.shim.name, ()) if x in s.shim.params and x in pargs]:
+                v_ = pargs[dn_]
+                alts_ = [a_ for _c, a_ in pq.split_where(v_)] if not pq.find(v_, lambda y: pq.call_named(y, "isclose") or pq.call_named(y, "round") or pq.call_named(y, "clip")) else [v_]
+                touched_ = []
+                for a_ in alts_:
+                    b_ = a_
+                    while b_[0] == 'call' and b_[1] in ("astype", "atleast_1d", "atleast_2d", "ascontiguousarray", "asarray", "array", "copy", "float64", "int64") and b_[2]:
+                        b_ = b_[2][0]
+                    if b_[0] != 'sym':
+                        touched_.append(show(a_)[:90])
+                rep.check(not touched_, "R07.d", "gis/grid.py", s.func.name, f"{s.shim.name}: `{dn_}` reaches the kernel as given (type / layout conversions only)",
+                          f"{touched_[:1]}", line=s.call.lineno)
             geo = {k_: pargs.get(k_) for k_ in want_geo if k_ in s.shim.params}
             okg = all(v is not None and pq.same(norm_geo(v), want_geo[k_]) for k_, v in geo.items())
             rep.check(okg, "R07.d", "gis/grid.py", s.func.name, f"{s.shim.name}: geometry arguments are the grid's own attributes, bound to the parameters of the same meaning",
